@@ -298,7 +298,28 @@ def inplace_through_view_fails(case):
     return None
 
 
+def setitem_views_fails(case):
+    """x[idx] = c with c a constant built from views of x's OWN coefficients (a bare ndarray view, a list or a tuple of views):
+    the same result as with independent copies -- the zeroth coefficient is read before anything is cleared"""
+    x0 = np.array(case['x'])
+    d = case['d']
+    forms = {'ndarray': lambda u: u.data[d, 0], 'list': lambda u: list(u.data[d, 0]), 'tuple': lambda u: tuple(u.data[d, 0]),
+             'list-of-0d': lambda u: [u.data[d, 0][j, ...] for j in range(u.data.shape[2])]}
+    ref = UTPM(x0.copy())
+    ref[...] = np.array(x0[d, 0])
+    x = UTPM(x0.copy())
+    try:
+        x[...] = forms[case['form']](x)
+    except Exception as ex:
+        return 'setitem-own-views-exception: %s' % (type(ex).__name__ + ':' + str(ex)[:60])
+    if not np.array_equal(x.data, ref.data):
+        return 'setitem-own-views: x[...] = <%s of views of coefficient %d of x> differs from the assignment of independent copies' % (case['form'], d)
+    return None
+
+
 def replay_case(ctx, case):
+    if case.get('op') == 'setitem-own-views':
+        return setitem_views_fails(case)
     if case.get('op') == 'inplace-through-view':
         return inplace_through_view_fails(case)
     if case.get('op') == 'tracer-drivers':
@@ -342,6 +363,15 @@ def run(ctx):
                     f = alias_fails(ctx, case)
                     if f:
                         ctx.report(case, 'failure', f)
+    for form in ('ndarray', 'list', 'tuple', 'list-of-0d'):
+        for shp in ((2,), (2, 2)):
+            for d_ in (0, 1):
+                case = {'op': 'setitem-own-views', 'form': form, 'd': d_, 'D': 2, 'P': 1, 'x': rand_coeffs(ctx.rng, (2, 1) + shp, -2, 2) + 0.125}
+                ctx.evaluations += 1
+                ctx.count('setitem-own-views')
+                f = setitem_views_fails(case)
+                if f:
+                    ctx.report(case, 'failure', f)
     # every in-place operator applied through a view of a polynomial, on every run
     for sym in sorted(IOPV):
         for D_, P_ in ((2, 1), (3, 2)):
